@@ -226,7 +226,7 @@ class C10(BaseCheck):
                 o['k'] = 'c%d' % r.randrange(3)
                 o['v'] = gen_value(r, 0.8)
             elif op == 'derive':
-                o['how'] = r.choice(['slice', 'slice-rev', 'filter-limit', 'columns-of', 'filter-expr'])
+                o['how'] = r.choice(['slice', 'slice-rev', 'filter-limit', 'columns-of', 'filter-expr', 'deepcopy', 'deepcopy'])
                 o['ver'] = r.choice(VERSIONS[1:])
             elif op == 'extend_grid':
                 # rows arrive as a Grid OBJECT built under another version (not as a list of dicts)
@@ -429,7 +429,9 @@ class C10(BaseCheck):
                             any(has_v3_value(hs, v) for m_ in g.column.values() for v in m_.values()):
                         skipped = True       # would (rightly) be refused by the constructor; not the point here
                     else:
-                        if how == 'slice':
+                        if how == 'deepcopy':
+                            ng = copy.deepcopy(g)      # same declared / undeclared version as its source
+                        elif how == 'slice':
                             ng = g[:]
                         elif how == 'slice-rev':
                             ng = g[::-1]
@@ -443,10 +445,11 @@ class C10(BaseCheck):
                                 if self.accepts(o['ver']) or not any(has_v3_value(hs, v) for v in row.values()):
                                     ng.append(row)
                         g = ng
-                        gver = str(g.version)
-                        explicit = True
-                        pre3 = not self.accepts(gver)
-                        last_ver = hs.Version(gver)
+                        if how != 'deepcopy':
+                            gver = str(g.version)
+                            explicit = True
+                        pre3 = explicit and not self.accepts(gver)
+                        last_ver = hs.Version(str(g.version))
                         stats['derived_grids'] = stats.get('derived_grids', 0) + 1
                 elif op == 'row_poke':
                     if nrows == 0:
@@ -734,8 +737,12 @@ class C10(BaseCheck):
         elif nest == 'indict':
             z, j = '{k:%s}' % z, {'k': j}
         decisions = {}
-        for name, call in (('zinc-reader', lambda: hs.parse_scalar(z, mode=hs.MODE_ZINC, version=ver)),
-                           ('json-reader', lambda: hs.parse_scalar(json.dumps(j), mode=hs.MODE_JSON, version=ver))):
+        as_bytes = len(ver + kind + nest) % 2 == 0        # the same text as str or as bytes must be decided alike
+        zt = z.encode('utf-8') if as_bytes else z
+        jt = json.dumps(j).encode('utf-8') if as_bytes else json.dumps(j)
+        stats['scalar_api.bytes' if as_bytes else 'scalar_api.str'] = 1
+        for name, call in (('zinc-reader', lambda: hs.parse_scalar(zt, mode=hs.MODE_ZINC, version=ver)),
+                           ('json-reader', lambda: hs.parse_scalar(jt, mode=hs.MODE_JSON, version=ver))):
             try:
                 v = call()
                 decisions[name] = True
